@@ -397,11 +397,15 @@ func (a *Act) applyContract(st *State, con *Contract, f *ssa.Function, sig *type
 	}
 	pre := st.clone()
 	// frame
-	a.applyModifies(st, con, env.with(pre))
+	penv := env.with(pre)
+	penv.old = pre // old(...) inside a modifies clause is the call's pre-state, not the partially havoced one
+	a.applyModifies(st, con, penv)
 	if icon != nil {
 		ienv := *env
 		ienv.vars = ivars
-		a.applyModifies(st, icon, ienv.with(pre))
+		ipenv := ienv.with(pre)
+		ipenv.old = pre
+		a.applyModifies(st, icon, ipenv)
 	}
 	// results
 	res := a.freshVal("r_"+sanitize(shortName(key)), resT)
@@ -470,6 +474,9 @@ func (a *Act) applyModifies(st *State, con *Contract, env *SpecEnv) {
 			continue
 		case m.Text == "heap":
 			a.havocAllHeaps(st)
+			continue
+		case m.Text == "memory":
+			a.havocMemory(st, m.Except)
 			continue
 		}
 		func() {
@@ -788,6 +795,9 @@ func (a *Act) frameCheck(st *State, env *SpecEnv, pos token.Pos, ri *ssa.Return)
 		return
 	}
 	for _, k := range sortedKeys(a.written) {
+		if !a.frameMemo.framed(k) {
+			continue
+		}
 		if strings.HasPrefix(k, "IT:") || k == "G:chancap" || k == "G:held" || k == "G:lockuses" || k == "G:nsent" {
 			continue
 		}
@@ -821,6 +831,33 @@ type frameInfo struct {
 	allowed map[string][]string
 	anyKey  map[string]bool
 	whole   bool
+	memory  bool     // "modifies memory": every non-ghost heap may change; ghost heaps are framed
+	keep    []string // ... except the fields of these struct types
+}
+
+// framed reports whether heap key k is subject to the frame check under this frame.
+func (fi *frameInfo) framed(k string) bool {
+	if !fi.memory {
+		return true
+	}
+	return strings.HasPrefix(k, "G:") || keptKey(k, fi.keep)
+}
+
+// keptKey: k is a field heap of one of the named struct types (matched by the type's unqualified name).
+func keptKey(k string, types []string) bool {
+	if !strings.HasPrefix(k, "F:") {
+		return false
+	}
+	srt := k[2:]
+	if i := strings.LastIndex(srt, "."); i >= 0 {
+		srt = srt[:i]
+	}
+	for _, t := range types {
+		if srt == t || strings.HasSuffix(srt, "_"+t) {
+			return true
+		}
+	}
+	return false
 }
 
 // frameAllowed evaluates the modifies clauses in the entry state: allowed addresses per heap key.
@@ -842,6 +879,11 @@ func (a *Act) frameAllowed() (map[string][]string, map[string]bool, bool) {
 		}
 		if m.Text == "heap" {
 			fi.whole = true
+			continue
+		}
+		if m.Text == "memory" {
+			fi.memory = true
+			fi.keep = append(fi.keep, m.Except...)
 			continue
 		}
 		func() {
